@@ -16,7 +16,7 @@ from lib import common, gen, lang, runtrace, scratch
 PID = "C06"
 JUDGED = {"final_lines", "headers", "vars", "final_vars", "returned", "final_returned", "k", "votes", "raised", "extra_event", "missing_event"}
 
-POOL = list("abcXYZ019 _-.") + [",", ";", "|", "\t", '"', "'", "\n", " ", "  ", "é", "ß", "Ω", "中", "😀", " ", " ", "א", "`", "#", "$", "[", "]", "~", "\\"]
+POOL = list("abcXYZ019 _-.") + [",", ";", "|", "\t", '"', "'", "\n", " ", "  ", "é", "ß", "Ω", "中", "😀", " ", " ", "א", "`", "#", "$", "[", "]", "~", "\\", "\ufeff"]
 NICE = ["name", "Last Name", "col_1", "a-b", "Zip", "x"]
 
 
@@ -49,6 +49,9 @@ def make_case(rng, tid):
             a, b = sorted(rng.sample(range(len(names)), 2))
             names[b] = names[a]
         records[first] = names + records[first][len(names):]
+    if records and records[0] and rng.random() < 0.12:
+        # U+FEFF is a code point like any other, also as the very first character of the file
+        records[0][0] = "\ufeff" + records[0][0]
     comps = [lang.fn("yes")]
     if first is not None:
         j = rng.randrange(max(1, len(records[first])))
